@@ -34,10 +34,17 @@ def _probe(me, owners):
 '''
 
 
+def node_name(parents, i):
+    """a submodule is named by its rank among its siblings: scripts in
+    different directories name different submodules with the same string"""
+    p = parents[i - 1]
+    return 'm%d' % (1 + sum(1 for j in range(1, i) if parents[j - 1] == p))
+
+
 def node_dirs(parents):
     dirs = {0: []}
     for i, p in enumerate(parents, 1):
-        dirs[i] = dirs[p] + ['m%d' % i]
+        dirs[i] = dirs[p] + [node_name(parents, i)]
     return dirs
 
 
@@ -86,7 +93,7 @@ def script_text(i, case, dirs):
     for j, p in enumerate(parents, 1):
         if p == i and flags[j] & 64:
             L.append("try:")
-            L.append("    submodule('m%d')" % j)
+            L.append("    submodule(%r)" % node_name(parents, j))
             L.append("except RuntimeError:")
             L.append("    _ev(ev='Caught')")
             L.append("_res('source_file', ['in_%d.txt'], "
@@ -94,7 +101,7 @@ def script_text(i, case, dirs):
             L.append("_res('executable', ['after_%d'], executable("
                      "'after_%d', ['m_%d.c']))" % (j, j, i))
         elif p == i:
-            L.append("_r = submodule('m%d')" % j)
+            L.append("_r = submodule(%r)" % node_name(parents, j))
             L.append("_ev(ev='Return', received=sorted(_r.keys()))")
             L.append("_probe(%d, %r)" % (i, list(range(n + 1))))
     if i == 0:
